@@ -171,6 +171,9 @@ impl<L: Language> DeserializeEnv<L> {
     let order = TopologicalSort::get_order(utils)
       .map_err(ReferentRuleError::CyclicRule)
       .map_err(RuleSerializeError::MatchesReference)?;
+    for id in utils.keys() {
+      self.registration.declare_local(id);
+    }
     for id in order {
       let rule = utils.get(id).expect("must exist");
       let rule = self.deserialize_rule(rule.clone())?;
